@@ -90,6 +90,15 @@ class C03(F.Spec):
     def cases(self, rng, tier):
         self.rows, self.disp = load_table()
         n = 250 if tier == "quick" else 4000
+        # a well-formed authorised recalibrate whose 32-bit channel number is an alias (modulo 256) of a shutter's channel
+        # names no channel of the device: nothing may change
+        for k, alias in enumerate([256, 257, 258, 512, 65536, -256, -255, 16777216, 2 ** 31 - 256]):
+            for dtype, data in ((0, b""), (1000, struct.pack("<ii", 2000, 2000))):
+                yield F.Case("calcfg-alias-%d-%d" % (k, dtype),
+                             ["board rs3 0", "init", "calllog 1", "rstimes 0 5000 5000 0 0", "rspos 0 5000 0", "rstimes 1 5000 5000 0 0",
+                              "rspos 1 5000 0", "rstimes 2 5000 5000 0 0", "rspos 2 5000 0",
+                              "msg 460 " + calcfg(3, alias, 8000, 1, dtype, data).hex(), "adv 300"],
+                             {"board": "rs3", "tags": ["board:rs3", "calcfg-alias"]})
         for i in range(n):
             yield self.gen(rng, i)
 
@@ -173,8 +182,9 @@ class C03(F.Spec):
                     cid, pl = 683, bytes([ch])
                 elif which == "calcfg":
                     data = bytes(rng.getrandbits(8) for _ in range(rng.choice([0, 0, 1, 4, 8, 128])))
-                    cid, pl = 460, calcfg(3, rng.choice([ch, ch, -1, 2 ** 31 - 1]), rng.choice([0, 4000, 8000, 8100, 5000, 9999, 6000, 6100]),
-                                          rng.choice([0, 1]), rng.choice([0, 1, 2]), data)
+                    cid, pl = 460, calcfg(3, rng.choice([ch, ch, -1, 2 ** 31 - 1, 256 + ch, 256 + ch, 512 + ch, ch - 256, 65536 + ch]),   # aliases of ch modulo 256 name no channel
+                                          rng.choice([0, 4000, 8000, 8000, 8100, 5000, 9999, 6000, 6100]),
+                                          rng.choice([0, 1]), rng.choice([0, 0, 1, 2, 1000]), data)
                 elif which == "state":
                     cid, pl = 500, struct.pack("<iB", 4, ch) + b"\0\0\0"
                 elif which == "timeout":
